@@ -1,9 +1,11 @@
 package checks
 
 import (
+	"crypto/sha256"
 	"encoding/json"
 	"fmt"
 	"strings"
+	"time"
 
 	"verif/engine/batch"
 	"verif/engine/mon"
@@ -13,7 +15,7 @@ import (
 // current tree, runs the stored case and prints expected vs. observed.
 func replay(v *Violation) int {
 	fmt.Printf("property %s class %s\n%s\n", v.Prop, v.Class, v.Summary)
-	if v.Grammar == "" || v.Case == nil {
+	if v.Grammar == "" {
 		fmt.Println("(no executable case stored; see the file for the witness)")
 		return 0
 	}
@@ -23,6 +25,19 @@ func replay(v *Violation) int {
 		return 2
 	}
 	defer w.Close()
+	if v.Case == nil {
+		// tool-level witness: run pigeon (plain and hooked front-end) on the stored text and flags
+		for i := 0; i < 3; i++ {
+			g := w.Gen(v.Grammar, v.Flags...)
+			fmt.Printf("run %d: pigeon %v -> exit %d, %d bytes of output (sha256 %x), stderr: %s\n", i+1, v.Flags, g.Exit, len(g.Stdout), sha256.Sum256(g.Stdout), firstLine(g.Stderr))
+		}
+		if hook, err := w.Hooked(); err == nil {
+			d := w.RunPigeon(hook, []byte(v.Grammar), 30*time.Second, []string{"PIGEON_VERIF_MODE=astdump"})
+			fmt.Printf("front-end AST dump (exit %d):\n%s\n", d.Exit, trunc(string(d.Stdout)))
+		}
+		fmt.Printf("expected: %v\nstored observation: %v\n", v.Want, v.Got)
+		return 0
+	}
 	g := w.Gen(v.Grammar, v.Flags...)
 	if g.Exit != 0 {
 		fmt.Printf("pigeon exit %d: %s\n", g.Exit, g.Stderr)
